@@ -718,6 +718,28 @@ def check_optimal_step_slots(ctx: Ctx) -> None:
         for got, node in r["par"]:
             ctx.ob("13.7-slots", con, got == want, f"in the parallel branch `{name}` is read from the slot of `{got}`; the sequential branch computes it at `{want}`: parallel and sequential optimal steps (and the gradients that use them) differ", node=node, stmt=f"parallel {name} read from the slot of {want}")
     ctx.ob("13.7-slots", con, n >= 3, "the three values (base, forward, backward) of the parallel branch were not all recognised", node=f, stmt="base, forward and backward slots recognised")
+    # both branches treat every component: when both loop over a range, it is the same range
+    from gv.props.shared import unfolded as _unf
+
+    branch = [s_ for s_ in stmts_of(f) if isinstance(s_, ast.If) and "_parallel" in norm_stmt(s_.test) and s_.orelse]
+    if len(branch) == 1:
+        def range_loops(block):
+            out = []
+            for s_ in block:
+                for l_ in ast.walk(s_):
+                    if isinstance(l_, ast.For) and isinstance(l_.iter, ast.Call) and dotted(l_.iter.func) == "range" and any(isinstance(c_, ast.Call) for b_ in l_.body for c_ in ast.walk(b_)):
+                        out.append(l_)
+            return out
+
+        lp, ls = range_loops(branch[0].body), range_loops(branch[0].orelse)
+        if lp and ls:
+            def span(l_):
+                alts = _unf(f, l_.iter) or [l_.iter]
+                return sorted({norm_stmt(a_, 200).replace("range(0, ", "range(") for a_ in alts})
+
+            want_ = span(ls[0])
+            for l_ in lp:
+                ctx.ob("13.7-slots", con, span(l_) == want_, f"the parallel branch loops over `{', '.join(span(l_))}` while the sequential branch loops over `{', '.join(want_)}`: some components keep their initial step in one mode only", node=l_, stmt="parallel and sequential branches loop over the same components")
 
 
 _DPL = "core/parallel_execution/disc_parallel_linearization.py"
@@ -812,6 +834,7 @@ def run(ctx: Ctx) -> None:
 
 # ---------------------------------------------------------------------------
 WITNESSES = [
+    {"name": "parallel-steps-skip-the-last-component", "file": "utils/derivatives/finite_differences.py", "old": "            f_0 = outputs[0]\n            for i in range(n_dim):", "new": "            f_0 = outputs[0]\n            for i in range(n_dim - 1):", "expect": "13.7"},
     {"name": "linearization-drops-failed-slots", "file": _DPL, "old": "        return [out.jacobian if out is not None else None for out in ordered_outputs]", "new": "        return [out.jacobian for out in ordered_outputs if out is not None]", "expect": "13.8"},
     {"name": "cache-jacobian-under-the-hash-lock", "file": "caches/base_full_cache.py", "old": "    @synchronized\n    def cache_jacobian(", "new": "    @synchronized_hashes\n    def cache_jacobian(", "expect": "13.4"},
     {"name": "optimal-step-backward-slot-off-by-one", "file": FDF, "old": "                f_m = outputs[n_dim + i + 1]", "new": "                f_m = outputs[n_dim + i]", "expect": "13.7"},
